@@ -10,7 +10,7 @@
     Statements only; proofs in Proofs/EraseProofs.v and the per-algorithm files. *)
 From Prtpy Require Import Base.Prelude Model.Binner Model.Objectives Model.Greedy Model.Packing Model.Covering Model.KK Model.CG Model.DP Model.SNP Model.CBLDM Model.BinCompletion Model.Multifit Model.Output Spec.Partition Proofs.EraseProofs Proofs.MultifitProofs Proofs.CKKOptimal Model.Balanced Proofs.BalancedProofs.
 
-(** if the sums-only run is the erasure of the full run, every cheap output is the documented function of the full run's sums *)
+(** C06 - Reported sums and derived outputs always describe the returned bins. Model/Output.v models outputtypes.py and the two adaptors: an output type chooses the bins-manager (keeps o) and extracts the answer. C06_X: for every sums-family output type o the cheap run (sums-only manager) returns derive o (sums of the FULL run): the documented function of the sums of the partition the contents manager returns - because the sums-only run makes exactly the same decisions (X_erase). Proved for greedy, round-robin, multifit (erase), KK, complete greedy (every objective, switch vector and limit), DP, SNP, RNP, the four fit packers, bin completion, the three covers, CBLDM (always keeps contents), and complete KK for every number of bins (items with equal names must have equal values: names_ok; since the repair that de-duplicates the children of a search node by their sums the two managers explore the same tree: ckk_erase, ckk_generator_erase). wf_*: every reported sum is the total value of the items reported in that bin (from is_partition / is_packing / is_cover of C01/C03/C05). Statements only; proofs in Proofs/EraseProofs.v and the per-algorithm files. *) From Prtpy Require Import Base.Prelude Model.Binner Model.Objectives Model.Greedy Model.Packing Model.Covering Model.KK Model.CG Model.DP Model.SNP Model.CBLDM Model.BinCompletion Model.Multifit Model.Output Spec.Partition Proofs.EraseProofs Proofs.MultifitProofs Proofs.CKKOptimal Model.Balanced Proofs.BalancedProofs. (** if the sums-only run is the erasure of the full run, every cheap output is the documented function of the full run's sums *)
 Theorem C06_schema :
   forall (A : Type) (alg : bool -> bins A),
   erase (alg true) = alg false ->
@@ -203,37 +203,48 @@ Theorem C06_cover_threequarters :
 Proof. exact @C06_cover_threequarters. Qed.
 Print Assumptions C06_cover_threequarters.
 
-Theorem C06_ckk_two_bins :
-  forall (A : Type) (valueof nameof : A -> Z) (o : outtype) (items : list A),
+(** complete KK, any number of bins: the two bins-managers explore the same search tree (the children of a node are de-duplicated by their sums), so the sums-only run is the erasure of the full run *)
+Theorem C06_ckk_erase :
+  forall (A : Type) (valueof nameof : A -> Z) (k : nat) (items : list A),
+  names_ok valueof nameof items ->
+  rmap erase (ckk valueof nameof true k items) = ckk valueof nameof false k items.
+Proof. exact @ckk_erase. Qed.
+Print Assumptions C06_ckk_erase.
+
+Theorem C06_ckk_erase_sums :
+  forall (A : Type) (valueof nameof : A -> Z) (k : nat) (items : list A),
+  names_ok valueof nameof items ->
+  rmap sums (ckk valueof nameof true k items) = rmap sums (ckk valueof nameof false k items).
+Proof. exact @ckk_erase_sums. Qed.
+Print Assumptions C06_ckk_erase_sums.
+
+Theorem C06_ckk :
+  forall (A : Type) (valueof nameof : A -> Z) (o : outtype) (k : nat) (items : list A),
   keeps o = false ->
-  Forall (fun x : A => 0 <= valueof x) items ->
   names_ok valueof nameof items ->
-  run_output_r o (fun keep : bool => ckk valueof nameof keep 2 items) =
-  rmap (fun b : bins A => derive o (sums b)) (ckk valueof nameof true 2 items).
-Proof. exact @C06_ckk_2. Qed.
-Print Assumptions C06_ckk_two_bins.
+  run_output_r o (fun keep : bool => ckk valueof nameof keep k items) =
+  rmap (fun b : bins A => derive o (sums b)) (ckk valueof nameof true k items).
+Proof. exact @C06_ckk. Qed.
+Print Assumptions C06_ckk.
 
-(** PARTIAL for complete KK with any number of bins: the Difference output agrees *)
-Theorem C06_ckk_difference_partial :
+(** the generator of complete KK yields the same partitions, in the same order, under both managers (every mode) *)
+Theorem C06_ckk_generator_erase :
+  forall (A : Type) (valueof nameof : A -> Z) (k : nat) (items : list A) (init : option Z),
+  names_ok valueof nameof items ->
+  map erase (ckk_generator valueof nameof true k items init) =
+  ckk_generator valueof nameof false k items init.
+Proof. exact @ckk_generator_erase. Qed.
+Print Assumptions C06_ckk_generator_erase.
+
+(** the bin count agrees whatever the names *)
+Theorem C06_ckk_bincount :
   forall (A : Type) (valueof nameof : A -> Z) (k : nat) (items : list A),
   (1 <= k)%nat ->
   items <> [] ->
-  Forall (fun x : A => 0 <= valueof x) items ->
-  names_ok valueof nameof items ->
-  run_output_r ODifference (fun keep : bool => ckk valueof nameof keep k items) =
-  rmap (fun b : bins A => derive ODifference (sums b)) (ckk valueof nameof true k items).
-Proof. exact @C06_ckk_difference. Qed.
-Print Assumptions C06_ckk_difference_partial.
-
-Theorem C06_ckk_bincount_partial :
-  forall (A : Type) (valueof nameof : A -> Z) (k : nat) (items : list A),
-  (1 <= k)%nat ->
-  items <> [] ->
-  Forall (fun x : A => 0 <= valueof x) items ->
   run_output_r OBinCount (fun keep : bool => ckk valueof nameof keep k items) =
   rmap (fun b : bins A => derive OBinCount (sums b)) (ckk valueof nameof true k items).
 Proof. exact @C06_ckk_bincount. Qed.
-Print Assumptions C06_ckk_bincount_partial.
+Print Assumptions C06_ckk_bincount.
 
 (** the sums-only complete KK run is optimal too *)
 Theorem C06_ckk_sums_manager_optimal :
